@@ -56,10 +56,9 @@ Delimit Scope string_scope with string.
 Definition std_tables (tcp0 tcp1 : bool) : tables :=
   {| t_tags := [ []; hx "74616741"%string; hx "74616742"%string ];        (* "", tagA, tagB *)
      t_addrs := [ if tcp0 then hx "7463702d6c6f6f706261636b3a30"%string  (* tcp-loopback:0 *)
-                  else hx "3c31302e302e302e313a393631383e"%string;       (* <10.0.0.1:9618> *)
+                  else hx "3c31302e302e302e313a393631383f736f636b3d7363686564645f313233345f353637383e"%string;       (* <10.0.0.1:9618?sock=schedd_1234_5678> *)
                   if tcp1 then hx "7463702d6c6f6f706261636b3a31"%string
-                  else hx "3c31302e302e302e323a393631383f736f636b3d636f6c6c6563746f723e"%string ];
-                                                                          (* <10.0.0.2:9618?sock=collector> *)
+                  else hx "3c31302e302e302e313a393631383f736f636b3d7374617274645f313233345f393939393e"%string ];     (* <10.0.0.1:9618?sock=startd_1234_9999>: two daemons behind one shared port *)
      t_cmds := [ hx "343231"%string; hx "3630303037"%string; hx "39"%string ];  (* 421 60007 9 *)
      t_dur := 2100; t_lease := 950 |}.
 
